@@ -7,7 +7,7 @@
   ≥ 1 and all five rounding modes: each COMPONENT of `z/w`, `1/z`, `p/z` (p real) is within `2^(2-prec)` relative — two units
   in the last place — of the exact component (which implies the modulus statement, `C04_div_modulus`); `z/p` (p real,
   nonzero) is correctly rounded per component.  Negative integer powers `z**(-n)` are `mpc_reciprocal` of `z**n` computed
-  at `prec+4` (model: `mpc_pow_int`); their accuracy is decided per case by the correspondence run, not proved here.
+  at `prec+4` (model: `mpc_pow_int`): Props/C04powneg.lean.
 -/
 import MpProofs.CDiv
 import Props.C04
